@@ -1049,3 +1049,22 @@ impl RouterHandler {
         }
     }
 }
+
+// --- Verification hooks (cargo feature `verif-hooks`, add-only) -------------
+
+#[cfg(feature = "verif-hooks")]
+impl RouterHandler {
+    /// Feeds an arbitrary reader to the private `read_from_router` (what
+    /// `run` does with the read half of the TCP stream). Exposes, never
+    /// alters, behaviour.
+    pub async fn verif_run_stream<T: AsyncRead + Unpin>(
+        &self,
+        rx: T,
+        router_addr: SocketAddr,
+        ingress_id: IngressId,
+        ingress_register: Arc<ingress::Register>,
+    ) {
+        self.read_from_router(rx, router_addr, ingress_id, ingress_register)
+            .await
+    }
+}
